@@ -329,6 +329,22 @@ PROPS["C19"] = {
 }
 
 
+# what later rounds added to the workloads (DESIGN.md 17.12, 17.13)
+_RULE_ADDENDA = {
+    "C01": "Gadgets: one case in ten stores the SAME relationship zero to three times under some operands of an intersection (also negated, nested, reached through permits) and not under others; one case in twelve writes relationships while a namespace 'Gone' is configured, hangs dead-end subject sets of it off nodes of the case and takes it out of the configuration before the check.",
+    "C03": "Mode sql also lets the database go away for good: from SQL statement k on every statement of the execution fails.",
+    "C04": "One REST patch in four carries an entry that names BOTH a subject id and a subject set (the request is refused, or the entry is stored by either subject; every other entry exactly as written); mode bulk starts with the large write once more with one entry that names an unknown namespace (end / middle / just past the first thousand): rejected without any effect.",
+    "C05": "REST patches also spell the action word of one delta differently (INSERT, Delete, deletE): the request is applied as a whole or not at all.",
+    "C08": "max-depth also takes the binding values 1 and 2; REST batches get one more entry naming both kinds of subject at a tape-chosen index: the batch is answered and every other entry keeps its result.",
+    "C09": "One case in eight holds subject sets of a namespace that is removed from the configuration after writing, at tape-chosen positions of the storage order: the tree shows them and everything stored after them. Mode faults also gives every storage call 10 ms of simulated time and the request a deadline inside the j-th call (or after the last): the answer is the whole tree or an error.",
+    "C11": "A third of the programs write `permits` before `related`; a third carry a relation typed as a union of two to four subject sets that three permissions traverse, in the first or last class; an eighth annotate traverse parameters with a type (skipped while the parser rejects the syntax).",
+    "C15": "One case in four enters through the REST check handlers (the request context is the one cancelled); one case in three runs on a connection pool of ONE connection.",
+    "C19": "Invalid JSON versions include a complete object followed by left-overs and two objects in one file; mode interleave schedules with sync.RWMutex writer preference (a reader behind a waiting writer waits) and also asks for names no version declares.",
+}
+for _k, _v in _RULE_ADDENDA.items():
+    PROPS[_k]["rule"] += " " + _v
+
+
 def evidence(prop, spec, tier, seed, records, deaths, unfinished, planned, wall_s, sim_wall_s, build_s, nworkers, n_new, known_hits):
     runs = 0
     execs = 0
